@@ -104,6 +104,17 @@ fn real_encode(msgs: &[Vec<u8>], l: usize, rng: &mut Rng) -> Result<Vec<u8>, Str
 /// reference decoder: the complete list of payloads in `wire`, or None if it is not a sequence of
 /// complete frames each holding a well-formed message with at most bytes-field 1 / skippable fields
 fn ref_decode(wire: &[u8]) -> Option<Vec<Vec<u8>>> {
+    // non-minimal length prefixes (e.g. 80 00) are "not judged": no opinion
+    {
+        let mut b = wire;
+        while !b.is_empty() {
+            let (v, k) = pb::get_uvarint(b)?;
+            if pb::uvarint(v).len() != k || b.len() < k + v as usize {
+                return None;
+            }
+            b = &b[k + v as usize..];
+        }
+    }
     let (frames, rest) = pb::unframe(wire);
     if !rest.is_empty() {
         return None;
@@ -206,8 +217,8 @@ fn witness(l: usize, sizes: &[usize], wire: &[u8], cuts: &[usize]) -> vmon::Valu
     json!({"limit": l, "data_sizes": sizes, "wire": util::short_hex(wire), "wire_len": wire.len(), "cuts": cuts.iter().take(16).collect::<Vec<_>>()})
 }
 
-fn roundtrip_case(check: &Check, rng: &mut Rng, thorough: bool) {
-    let l = *rng.pick(&LIMITS);
+fn roundtrip_case(check: &Check, rng: &mut Rng, thorough: bool, tiny: bool) {
+    let l = if tiny { *rng.pick(&LIMITS[..7]) } else { *rng.pick(&LIMITS) };
     let sizes = gen_sizes(rng, l);
     let msgs: Vec<Vec<u8>> = sizes.iter().enumerate().map(|(i, n)| payload(rng, i, *n)).collect();
     let exact = sizes.iter().any(|d| body_len(*d) == l);
@@ -419,8 +430,8 @@ pub fn run(args: &Args) -> i32 {
     );
     let thorough = args.tier == vmon::Tier::Thorough;
     let tiny = util::tiny(args);
-    let n_a = util::budget(args, 1_500, 60_000, 6);
-    vmon::par_cases(&check, n_a, args.threads, |_, rng| roundtrip_case(&check, rng, thorough && !tiny));
+    let n_a = util::budget(args, 1_500, 30_000, 6);
+    vmon::par_cases(&check, n_a, args.threads, |_, rng| roundtrip_case(&check, rng, thorough && !tiny, tiny));
 
     // B: enumerated
     let mut b_cases: Vec<(usize, u64, usize)> = vec![];
@@ -461,7 +472,7 @@ pub fn run(args: &Args) -> i32 {
         });
         check.cases(small.len() as u64);
     }
-    let n_c = util::budget(args, 20_000, 600_000, 20);
+    let n_c = util::budget(args, 20_000, 400_000, 20);
     vmon::par_cases(&check, n_c, args.threads, |_, rng| {
         let l = *rng.pick(&[16usize, 131, 1024]);
         let bytes = if rng.bool() {
